@@ -226,7 +226,13 @@ class CdfInterp(object):
         if isinstance(st.op, ast.Mult):
           self.env[st.target.id] = _mul(cur, rhs)
           continue
-        raise AnalysisError('%s: augmented op not modelled' % self.fn.loc(st))
+        # x op= y is x = x op y for the values modelled here
+        e = ast.copy_location(ast.BinOp(
+            left=ast.copy_location(ast.Name(id=st.target.id, ctx=ast.Load()),
+                                   st.target),
+            op=st.op, right=st.value), st)
+        self.env[st.target.id] = self.val(e)
+        continue
       if isinstance(st, ast.If):
         t = self.test(st.test)
         if t is None:
